@@ -92,14 +92,28 @@ def values(rng, surrogates=False):
     return vals
 
 
-def form(rng, surrogates=False):
-    """One way of giving a value: scalar string, list, tuple."""
+SUBCLASS_OF = {"scalar": "substr", "list": "sublist", "tuple": "subtuple"}
+P_SUBCLASS = 0.18
+
+
+def subclassed(rng, f, ntuple=False):
+    """With probability P_SUBCLASS the same value as an instance of a subclass of its type (Name(str), TagList(list),
+    TagTuple(tuple); ntuple=True: half of the tuple subclass instances are namedtuples of strings)."""
+    if rng.random() < P_SUBCLASS:
+        if ntuple and f[0] == "tuple" and rng.random() < 0.5:
+            return ["ntuple", f[1]]
+        return [SUBCLASS_OF[f[0]], f[1]]
+    return f
+
+
+def form(rng, surrogates=False, ntuple=False):
+    """One way of giving a value: scalar string, list, tuple - or an instance of a subclass of these."""
     r = rng.random()
     if r < 0.35:
-        return ["scalar", ustr(rng, surrogates=surrogates)]
+        return subclassed(rng, ["scalar", ustr(rng, surrogates=surrogates)])
     if r < 0.75:
-        return ["list", values(rng, surrogates)]
-    return ["tuple", values(rng, surrogates)]
+        return subclassed(rng, ["list", values(rng, surrogates)])
+    return subclassed(rng, ["tuple", values(rng, surrogates)], ntuple)
 
 
 def mapping(rng, surrogates=False, nmax=6, nmin=0):
@@ -130,7 +144,7 @@ HOWS = ["feature_setitem", "attr_setitem", "update_dict", "update_kwargs", "upda
 PARAM_NAMES = ["other", "args", "kwargs", "key", "value", "k", "v", "d", "mapping", "iterable", "E", "F", "m", "default", "item"]
 
 
-def ops(rng, base_keys, n=None):
+def ops(rng, base_keys, n=None, ntuple=False):
     """Operations on the attributes of one feature.  Each: {"how", "items": [[key, form]], "switch": bool}
     ("switch" False = the operation is carried out while always_return_list is False)."""
     keys = list(base_keys)
@@ -153,7 +167,7 @@ def ops(rng, base_keys, n=None):
                 keys.append(k)
             if any(k == it[0] for it in items):
                 continue
-            items.append([k, form(rng)])
+            items.append([k, form(rng, ntuple=ntuple)])
         out.append({"how": how, "items": items, "switch": rng.random() < 0.7})
     return out
 
@@ -289,7 +303,14 @@ def pool(rng):
         {"via": "ctor", "cols": cols, "attrs": rich, "dialect": "default", "id": "r2"},
         {"via": "ctor", "cols": cols, "attrs": rich, "dialect": "gtf", "id": None},
     ]
-    keep = specs[:7]
+    # database records with identical printed lines under different primary keys (a line repeated in the input)
+    noid = gff3_line(cols, attrs[1:])
+    n = rng.choice([2, 2, 3])
+    dups = [{"via": "dbdup", "line": noid, "n": n, "pick": i, "strategy": "auto"} for i in rng.sample(range(n), 2)]
+    dups += [{"via": "dbdup", "line": line, "n": 2, "pick": i, "strategy": "create_unique"} for i in range(2)]
+    if rng.random() < 0.5:
+        dups.append({"via": "line", "line": noid})
+    keep = specs[:7] + dups
     rest = specs[7:]
     rng.shuffle(rest)
     keep += rest[:rng.randrange(2, 6)]
@@ -335,10 +356,10 @@ def safe_values(rng, fmt):
 def safe_form(rng, fmt):
     r = rng.random()
     if r < 0.35:
-        return ["scalar", safe_value(rng, fmt)]
+        return subclassed(rng, ["scalar", safe_value(rng, fmt)])
     if r < 0.75:
-        return ["list", safe_values(rng, fmt)]
-    return ["tuple", safe_values(rng, fmt)]
+        return subclassed(rng, ["list", safe_values(rng, fmt)])
+    return subclassed(rng, ["tuple", safe_values(rng, fmt)])
 
 
 def observations(rng, p=0.35):
